@@ -43,6 +43,7 @@ package utils
 //@   spawn modifies mapof(cache.cache), cache.cache, cache.currentCacheSize
 //@   ensures[stored] seq: result == nil ==> cache.cache != nil && in(key, cache.cache) && cache.cache[key].value == value && cache.cache[key].expirationTimeNano == expirationTimeNano
 //@   ensures[fresh-for-ttl] result == nil ==> expirationTimeNano >= old(now()) + ttlDuration && expirationTimeNano <= now() + ttlDuration
+//@   ensures[ttl-of-param] result == nil && ttlSec >= 0.0 ==> real(ttlDuration) <= 1000000000.0 * ttlSec && real(ttlDuration) > 1000000000.0 * ttlSec - 1.0
 //@   ensures[others-untouched] seq: old(cache.cache) != nil ==> cache.cache == old(cache.cache) && forall(k, K, k != key ==> (in(k, cache.cache) <==> old(in(k, cache.cache))) && cache.cache[k] == old(cache.cache[k]))
 //@   ensures[size-gate] seq: result == nil && cache.calculateCacheSize && cache.calculateSizeFunc != nil ==> old(cache.currentCacheSize) + itemSize <= cache.maxCacheSize && cache.currentCacheSize == old(cache.currentCacheSize) + itemSize
 //@   ensures[no-size-no-error] !cache.calculateCacheSize || cache.calculateSizeFunc == nil ==> result == nil
